@@ -400,11 +400,37 @@ func runC17(c *Ctx) {
 			_, ok := isClone(v)
 			return ok
 		}
+		// "handled" sets: instead of deleting a carried-over name from the pending map, the name is entered into a
+		// local set that the Add loop consults with its own range key (and skips the Add when it is found)
+		handled := map[ssa.Value]bool{}
+		instrs(hd, func(in ssa.Instruction) {
+			lk, ok := in.(*ssa.Lookup)
+			if !ok {
+				return
+			}
+			mm, ok := lk.X.(*ssa.MakeMap)
+			if !ok {
+				return
+			}
+			if ex, ok := lk.Index.(*ssa.Extract); ok && ex.Index == 1 {
+				if nx, ok := ex.Tuple.(*ssa.Next); ok {
+					if rg, ok := nx.Iter.(*ssa.Range); ok && isLocalMap(rg.X) && isNamed(rg.X.Type().Underlying().(*types.Map).Elem(), "proto/target", "Target") {
+						handled[mm] = true
+					}
+				}
+			}
+		})
 		cls := func(e *PPA, st *State, rv RV) string {
 			rv = e.Resolve(st, rv)
 			switch v := rv.V.(type) {
 			case *ssa.Lookup:
 				x := e.Resolve(st, RV{rv.F, v.X})
+				if handled[x.V] {
+					if v.CommaOk {
+						return ""
+					}
+					return "HANDLED"
+				}
 				if isLocalMap(x.V) && !v.CommaOk {
 					if bt, ok := v.Type().Underlying().(*types.Basic); ok && bt.Kind() == types.Bool {
 						return "RCH"
@@ -414,7 +440,9 @@ func runC17(c *Ctx) {
 			case *ssa.Extract:
 				// membership in a local set: _, changed := set[k]
 				if lk, ok := v.Tuple.(*ssa.Lookup); ok && lk.CommaOk && v.Index == 1 {
-					if x := e.Resolve(st, RV{rv.F, lk.X}); isLocalMap(x.V) {
+					if x := e.Resolve(st, RV{rv.F, lk.X}); handled[x.V] {
+						return "HANDLED"
+					} else if isLocalMap(x.V) {
 						return "RCH"
 					}
 				}
@@ -508,7 +536,13 @@ func runC17(c *Ctx) {
 				n++
 				nDel := p.Count(func(ev *Ev) bool { return handlerOf(ev) == hDel })
 				nUpd := p.Count(func(ev *Ev) bool { return handlerOf(ev) == hUpd })
-				nDrop := p.Count(func(ev *Ev) bool { return ev.Label == "builtin:delete" && len(ev.Args) > 0 && isLocalMap(ev.Args[0].V) })
+				nDrop := p.Count(func(ev *Ev) bool {
+					if ev.Label == "builtin:delete" && len(ev.Args) > 0 && isLocalMap(ev.Args[0].V) {
+						return true
+					}
+					// ... or entered into the handled set
+					return strings.HasPrefix(ev.Label, "mapupdate:") && len(ev.Args) > 0 && handled[ev.Args[0].V]
+				})
 				ok := false
 				extra := ""
 				switch sc.want {
@@ -538,6 +572,26 @@ func runC17(c *Ctx) {
 				}
 			}
 			c.Floor("C17.classify/"+sc.name, n, 1)
+		}
+		// a handled set really suppresses the Add: found => no Add on any path, not found => every Add-loop iteration adds
+		if len(handled) > 0 {
+			for _, found := range []bool{true, false} {
+				at := &Atoms{Class: cls, Bool: map[string]bool{"HANDLED": found, "HASADD": true, "HASUPD": true, "HASDEL": true}}
+				e := &PPA{Cond: at.Cond, MaxVisits: 2, Watch: isHandler}
+				e.Run(hd)
+				c.Paths += len(e.Paths)
+				c.Scen++
+				adds, paths := 0, 0
+				for i := range e.Paths {
+					paths++
+					adds += e.Paths[i].Count(func(ev *Ev) bool { return handlerOf(ev) == hAdd })
+				}
+				if found {
+					c.Check(adds == 0 && paths > 0, "C17.classify", fnName(hd), "a name in the handled set is not announced as added", P.Pos(hd.Pos()), fmt.Sprintf("%d Add calls on %d paths", adds, paths))
+				} else {
+					c.Check(adds > 0, "C17.classify", fnName(hd), "a name not in the handled set is announced as added", P.Pos(hd.Pos()), fmt.Sprintf("%d Add calls on %d paths", adds, paths))
+				}
+			}
 		}
 		// nil handlers
 		for _, h := range []struct {
